@@ -256,6 +256,7 @@ class Unit:
         self.src_cache = {}
         self.trusted = []      # (kind, line, text) found by the mechanical scan
         self.probe_fns = []
+        self.module = None
 
     def src(self, rel):
         if rel not in self.src_cache:
@@ -279,6 +280,14 @@ class Unit:
             st = ln.strip()
             if st.startswith("//@include "):
                 self.process(st[len("//@include "):].strip())
+                i += 1
+                continue
+            if st.startswith("//@module "):
+                self.module = st[len("//@module "):].strip()
+                i += 1
+                continue
+            if st == "//@endmodule":
+                self.module = None
                 i += 1
                 continue
             if st.startswith("//@item "):
@@ -335,7 +344,7 @@ class Unit:
             "src_tokens": len(stoks), "annotation_tokens": n_ins,
             "rewrites": rewrites, "status": "identical" if merged is None else "merged",
             "source_changes": changes, "gen_lines": [gen_first, gen_last], "unit_file": unitfile,
-            "fn": fn_name, "probes": n_probe,
+            "fn": fn_name, "probes": n_probe, "module": self.module,
             "kind": ("fn" if body_at is not None else "fn_decl") if fn_name else "type",
             "emits_body": body_open_seg(segs) is not None,
         }
